@@ -671,7 +671,7 @@ func c07Reducers(c *c07Ctx) {
 		}
 		return out, err
 	}
-	vals := []int64{math.MinInt64, -2, -1, 0, 1, 2, 3, math.MaxInt64}
+	vals := []int64{math.MinInt64, -(1 << 62), -2, -1, 0, 1, 2, 3, 1 << 62, 5000000000000000000, math.MaxInt64}
 	var multisets [][]int64
 	var rec func(start int, cur []int64)
 	rec = func(start int, cur []int64) {
@@ -731,6 +731,20 @@ func c07Reducers(c *c07Ctx) {
 			}
 			if small {
 				chk("fn:avg", true, ast.Float64(fsum/float64(len(ms))))
+			} else {
+				// large magnitudes: the float sum rounds, so the mean is compared with the exact one (big integers)
+				// up to a relative error of 1e-9, and must lie between the smallest and the largest row
+				exact := new(big.Int)
+				for _, x := range rows {
+					exact.Add(exact, big.NewInt(x))
+				}
+				mean, _ := new(big.Float).Quo(new(big.Float).SetInt(exact), big.NewFloat(float64(len(rows)))).Float64()
+				v, err := red("fn:avg", true, rows)
+				got, ferr := v.Float64Value()
+				tol := 1e-9 * math.Max(math.Abs(mean), math.Max(math.Abs(float64(mn)), math.Abs(float64(mx))))
+				if err != nil || ferr != nil || math.Abs(got-mean) > tol || got < float64(mn)-tol || got > float64(mx)+tol {
+					c.fail(fmt.Sprintf("fn:avg over %v = %v err=%v, the mean is %g (rows lie in [%d, %d])", rows, v, err, mean, mn, mx), rows)
+				}
 			}
 			v, err := red("fn:collect_distinct", true, rows)
 			got := map[string]bool{}
